@@ -144,6 +144,24 @@ theorem elliptic_force_is_neg_grad_tangent (hmu : 0 < mu) (hD0 : 0 ≤ D0)
     funext t; exact ellBlock_terms_sum D0 mu D w jar0 _
   rw [h]; exact blk_hasDerivAt_tangent hmu hD0 hrel jar0 jar i
 
+/-- Without any relation between the `D` of the rows: in the INTERIOR of each zone (top: `N > mu·T`,
+    bottom: `mu·N + T < 0`, middle: `state = CONE`, an open set) the returned forces are minus the
+    partial derivatives of the cost (`Real.sqrt` is differentiated where `T ≠ 0`). -/
+theorem elliptic_force_is_neg_grad_interior (hmu : 0 < mu) (jar0 : ℝ) (jar : Fin n → ℝ)
+    (hint : (blkZone mu w jar0 jar = Zone.top → 0 < jar0 * mu - mu * TT w jar) ∧
+            (blkZone mu w jar0 jar = Zone.bottom → mu * (jar0 * mu) + TT w jar < 0)) :
+    ∃ (fN : ℝ) (fT : Fin n → ℝ), (ellBlock D0 jar0 mu (tsOf D w jar)).force = fN :: List.ofFn fT ∧
+      HasDerivAt (fun t => ellCost D0 mu D w t jar) (-fN) jar0 ∧
+      ∀ i, HasDerivAt (fun t => ellCost D0 mu D w jar0 (Function.update jar i t)) (-(fT i)) (jar i) := by
+  refine ⟨_, _, ellBlock_force D0 mu D w jar0 jar, ?_, fun i => ?_⟩
+  · have h : (fun t => ellCost D0 mu D w t jar) = fun t => blkCost D0 mu D w t jar := by
+      funext t; exact ellBlock_terms_sum D0 mu D w t jar
+    rw [h]; exact blk_interior_normal hmu jar0 jar hint
+  · have h : (fun t => ellCost D0 mu D w jar0 (Function.update jar i t)) =
+        fun t => blkCost D0 mu D w jar0 (Function.update jar i t) := by
+      funext t; exact ellBlock_terms_sum D0 mu D w jar0 _
+    rw [h]; exact blk_interior_tangent hmu jar0 jar i hint
+
 example : ∃ (D0 mu : ℝ) (D w : Fin 2 → ℝ), 0 < mu ∧ 0 ≤ D0 ∧
     ∀ i, D i * (mu * mu) = D0 * (w i * w i) :=
   ⟨1, 1 / 2, ![4, 16], ![1, 2], by norm_num, by norm_num, by intro i; fin_cases i <;> norm_num⟩
